@@ -55,6 +55,9 @@ func hashValue(p *sdcpb.Path) mockVal {
 		return mockVal{Kind: "absent"}
 	case strings.HasPrefix(last, "n"):
 		return mockVal{Kind: "leaf", S: fmt.Sprint(h % 50)}
+	case strings.HasPrefix(last, "x"):
+		// a value that reads as a number but is not written the way numbers print: as a key it has to stay as it is
+		return mockVal{Kind: "leaf", S: fmt.Sprintf("0%d.0", h%100)}
 	}
 	return mockVal{Kind: "leaf", S: fmt.Sprintf("v%d", h)}
 }
